@@ -17,6 +17,9 @@ ASSUMPTIONS = [
     "traced is analysed for __debug__ == True; without __debug__ it returns the function itself",
 ]
 
+from ..kinds import Abs as _Abs
+
+A_FUNC_ = _Abs("function", "Callable", "object")
 EW = "helpers.asynchrony._ExecutorWrapper"
 MIMICS = {"haiway.utils.mimic.mimic_function", "haiway.helpers.asynchrony._mimic_async"}
 PUBLIC = ["asynchronous", "wrap_async", "traced", "cache", "retry", "throttle", "timeout"]
@@ -253,6 +256,65 @@ def check(an: Analysis) -> None:
                 w = g.ordered(lambda n: n in mn, lambda n: n in rets)
                 if w is not None:
                     ob.fail(outer, rets[0].ast, f"`{fi.name}` can be returned before it was mimicked", CFG.show_path(w))
+    # what the public decorators hand back: a wrapper of the function (or the function itself), or - in the
+    # parameterised form - the wrapping closure; never None / something unrelated
+    from ..kinds import NOVALUE as _NV
+    from ..kinds import Scenario as _Scn
+
+    deco_map = {"cache": "helpers.caching.cache", "retry": "helpers.retries.retry", "throttle": "helpers.throttling.throttle", "timeout": "helpers.timeouted.timeout", "asynchronous": "helpers.asynchrony.asynchronous", "wrap_async": "helpers.asynchrony.wrap_async", "traced": "helpers.tracing.traced"}
+    for pub, dq in deco_map.items():
+        dfn = prog.fn(dq)
+        wraps_ = [nf for nf in dfn.nested if nf.name in ("_wrap", "wrap")]
+        nested_defs = {nf.name for nf in dfn.nested}
+        fparam = next((p.arg for p in dfn.params() if p.arg in ("function", "wrapped")), None)
+
+        def classify_return(fn_: FunctionInfo, v: ast.AST | None) -> str:
+            dd = Deps(prog, fn_)
+            v = unwrap(v)
+            if v is None or (isinstance(v, ast.Constant) and v.value is None):
+                return "none"
+            if isinstance(v, ast.Name):
+                if v.id in nested_defs or v.id in {nf.name for nf in fn_.nested}:
+                    return "closure"
+                oo = dd.origins(v)
+                if oo and all(o.startswith("param:") and o[6:] in ("function", "wrapped") for o in oo):
+                    return "function"
+                if oo and all(o.startswith("call:") for o in oo):
+                    return "wrapped"
+                return "other"
+            if isinstance(v, ast.Call):
+                first = v.args[0] if v.args else next((k.value for k in v.keywords if k.arg in ("function", "wrapped")), None)
+                oo = dd.origins(first) if first is not None else frozenset()
+                if oo and all(o.startswith("param:") and o[6:] in ("function", "wrapped") for o in oo):
+                    return "wrapped"
+                return "other"
+            return "other"
+
+        for fn_ in [dfn, *wraps_]:
+            for r in [r for r in fn_.own_nodes() if isinstance(r, ast.Return)]:
+                kind = classify_return(fn_, r.value)
+                ob.inst(fn_, r, f"{pub}: returns {kind}")
+                if kind in ("none", "other"):
+                    ob.fail(fn_, r, f"the `{pub}` decorator hands back `{stmt_text(r.value) if r.value is not None else 'None'}` instead of a wrapper of the decorated function")
+        if fparam is not None and wraps_:
+            gd = an.cfg(dfn)
+            ddec = Deps(prog, dfn)
+            for given in (True, False):
+
+                def base(e: ast.AST, given=given):
+                    if is_name(e, fparam):
+                        return A_FUNC_ if given else None
+                    return _NV
+
+                sc = _Scn(gd, ddec, base)
+                live = [n for n in gd.nodes if n.kind == "return" and n.id in sc.reach]
+                for r in live:
+                    kind = classify_return(dfn, r.ast.value)  # type: ignore[union-attr]
+                    want = "wrapped" if given else "closure"
+                    if kind != want and kind not in ("none", "other"):
+                        ob.fail(dfn, r.ast, f"`{pub}` {'applied directly to a function' if given else 'called with options only'} returns the {kind} (expected the {want})")
+                if not live:
+                    ob.fail(dfn, None, f"`{pub}` has no return when the function {'is' if given else 'is not'} given")
     if sites < 10:
         raise AnalysisError(f"only {sites} wrapper sites found (confirmed: 13)")
     missing = [n for n in PUBLIC if n not in helpers_all]
